@@ -29,6 +29,8 @@ pub struct Config {
     pub eq: &'static str,
     /// what `mem::take` leaves behind (the Default of the places it is used on)
     pub take_default: &'static str,
+    /// fallible functions (returning `Result`) -> Gallina template of a computation in the file-system monad `M`
+    pub mcalls: Vec<(&'static str, &'static str)>,
     /// how a variable is rendered by `format!` / Display when it is not a string: variable -> Gallina template (`{v}`)
     pub display: Vec<(&'static str, &'static str)>,
 }
@@ -297,6 +299,152 @@ impl<'c> Tr<'c> {
             None => self.miss(format!("match pattern `{name}`")),
         };
         if binders.is_empty() { con } else { format!("{con} {}", binders.join(" ")) }
+    }
+
+    // ---------------------------------------------------------------- value functions and the result monad
+    /// a block used as a value: `let`s followed by the value expression
+    pub fn vstmts(&mut self, stmts: &[Stmt]) -> String {
+        let Some((first, rest)) = stmts.split_first() else {
+            return "tt".to_string();
+        };
+        match first {
+            Stmt::Local(l) => {
+                let (Pat::Ident(pi), Some(init)) = (&l.pat, &l.init) else {
+                    return self.miss(format!("let `{}`", squash(&l.pat)));
+                };
+                let name = sanitize(&pi.ident.to_string());
+                let rhs = self.expr(&init.expr);
+                let k = self.vstmts(rest);
+                format!("let {name} := {rhs} in\n{k}")
+            }
+            Stmt::Expr(e, None) if rest.is_empty() => self.expr(e),
+            other => self.miss(format!("statement `{}` in a value block", squash(other))),
+        }
+    }
+
+    /// a fallible expression (`Result<_, _>`) as a computation in `M`
+    pub fn mexpr(&mut self, e: &Expr) -> String {
+        match e {
+            Expr::Paren(p) => self.mexpr(&p.expr),
+            Expr::Reference(r) => self.mexpr(&r.expr),
+            // error conversions do not change which operation failed or whether it failed
+            Expr::MethodCall(m) if m.method == "map_err" => self.mexpr(&m.receiver),
+            Expr::Call(c) => {
+                let f = squash(&c.func);
+                if f == "Ok" && c.args.len() == 1 {
+                    let v = self.expr(&c.args[0]);
+                    return format!("(ret {v})");
+                }
+                let Some(tpl) = self.cfg.mcalls.iter().find(|(k, _)| *k == f).map(|(_, t)| *t) else {
+                    return self.miss(format!("fallible call `{f}`"));
+                };
+                // an argument that is itself a fallible call (default_on_not_found(fs::remove_file(..))) stays a computation
+                let args: Vec<String> = c
+                    .args
+                    .iter()
+                    .map(|a| {
+                        let inner = match a {
+                            Expr::Reference(r) => &*r.expr,
+                            o => o,
+                        };
+                        match inner {
+                            Expr::Call(ic) if self.cfg.mcalls.iter().any(|(k, _)| *k == squash(&ic.func)) => self.mexpr(inner),
+                            _ => self.expr(a),
+                        }
+                    })
+                    .collect();
+                fill(tpl, "", &args)
+            }
+            other => self.miss(format!("fallible expression `{}`", squash(other))),
+        }
+    }
+
+    /// the statements of a function returning `Result<(), _>` as a computation of type `M unit`
+    pub fn mstmts(&mut self, stmts: &[Stmt]) -> String {
+        let Some((first, rest)) = stmts.split_first() else {
+            return "ret tt".to_string();
+        };
+        match first {
+            Stmt::Local(l) => {
+                let (Pat::Ident(pi), Some(init)) = (&l.pat, &l.init) else {
+                    return self.miss(format!("let `{}`", squash(&l.pat)));
+                };
+                let name = sanitize(&pi.ident.to_string());
+                if let Expr::Try(t) = &*init.expr {
+                    let m = self.mexpr(&t.expr);
+                    let k = self.mstmts(rest);
+                    format!("{name} <- {m} ;;\n{k}")
+                } else {
+                    let rhs = self.expr(&init.expr);
+                    let k = self.mstmts(rest);
+                    format!("let {name} := {rhs} in\n{k}")
+                }
+            }
+            Stmt::Expr(Expr::Try(t), Some(_)) => {
+                let m = self.mexpr(&t.expr);
+                let k = self.mstmts(rest);
+                format!("{m} ;;;\n{k}")
+            }
+            Stmt::Expr(Expr::ForLoop(fl), _) => {
+                let item = pat_term(&fl.pat);
+                let iter = self.expr(&fl.expr);
+                let body = self.mstmts(&fl.body.stmts);
+                let k = self.mstmts(rest);
+                format!("iterM (fun {item} =>\n{body}) {iter} ;;;\n{k}")
+            }
+            Stmt::Expr(Expr::If(i), _) if !matches!(&*i.cond, Expr::Let(_)) => {
+                let c = self.expr(&i.cond);
+                let ends_in_return = matches!(i.then_branch.stmts.last(), Some(Stmt::Expr(Expr::Return(_), _)));
+                let t = self.mstmts(&i.then_branch.stmts);
+                match (&i.else_branch, ends_in_return) {
+                    // `if c { ..; return X; }`: the rest runs only when c is false
+                    (None, true) => {
+                        let k = self.mstmts(rest);
+                        format!("if {c} then\n{t}\nelse\n{k}")
+                    }
+                    (None, false) => {
+                        let k = self.mstmts(rest);
+                        format!("(if {c} then\n{t}\nelse ret tt) ;;;\n{k}")
+                    }
+                    (Some((_, eb)), _) => {
+                        let f = match &**eb {
+                            Expr::Block(b) => self.mstmts(&b.block.stmts),
+                            other => self.miss(format!("else branch `{}`", squash(other))),
+                        };
+                        if rest.is_empty() {
+                            format!("if {c} then\n{t}\nelse\n{f}")
+                        } else {
+                            let k = self.mstmts(rest);
+                            format!("(if {c} then\n{t}\nelse\n{f}) ;;;\n{k}")
+                        }
+                    }
+                }
+            }
+            Stmt::Expr(Expr::Return(r), _) => match &r.expr {
+                Some(v) => self.mvalue(v),
+                None => "ret tt".to_string(),
+            },
+            Stmt::Expr(e, None) if rest.is_empty() => self.mvalue(e),
+            other => self.miss(format!("statement `{}`", squash(other))),
+        }
+    }
+
+    /// the value a `Result`-returning function ends with
+    fn mvalue(&mut self, e: &Expr) -> String {
+        let s = squash(e);
+        if s == "Ok(())" {
+            return "ret tt".to_string();
+        }
+        if let Expr::Call(c) = e {
+            if squash(&c.func) == "Err" {
+                let what = c.args.first().map(squash).unwrap_or_default();
+                return match self.cfg.mcalls.iter().find(|(k, _)| what.starts_with(*k)) {
+                    Some((_, tpl)) => (*tpl).to_string(),
+                    None => self.miss(format!("error value `{what}`")),
+                };
+            }
+        }
+        self.mexpr(e)
     }
 
     fn displayed(&self, key: &str, term: String) -> String {
